@@ -9,7 +9,13 @@ Variable steps : nat.
 Variable p_lo p_hi : N.
 Notation pb := (pbox N).
 Theorem gen_constructor_is_model lists l r : gen_mk_staircase_gen N steps p_lo p_hi lists l r = mk_staircase_gen N steps p_lo p_hi lists l r.
-Proof. reflexivity. Qed.
+Proof.
+  unfold gen_mk_staircase_gen, mk_staircase_gen, mk_staircase_core.
+  change (gen_left_right_switch N lists l r) with (left_right_switch N lists l r).
+  destruct (left_right_switch N lists l r) as [l' r'].
+  change (gen_bound_steps_check N steps p_lo p_hi) with (bound_steps_check N steps p_lo p_hi).
+  destruct (negb _); [reflexivity|]. destruct (_ && _); [|reflexivity]. destruct (crosses _ _ _); reflexivity.
+Qed.
 Theorem gen_stepwise_ops_are_model (p q : pb) (f : N -> N -> N) (g : N -> N) (c : N) :
   gen_pneg N steps p_lo p_hi p = pneg N steps p_lo p_hi p /\
   gen_precip N steps p_lo p_hi p = precip N steps p_lo p_hi p /\
@@ -17,5 +23,7 @@ Theorem gen_stepwise_ops_are_model (p q : pb) (f : N -> N -> N) (g : N -> N) (c 
   gen_punary N steps p_lo p_hi g p = punary N steps p_lo p_hi g p /\
   gen_penv N steps p_lo p_hi p q = penv N steps p_lo p_hi p q /\
   gen_pimp N steps p_lo p_hi p q = pimp N steps p_lo p_hi p q.
-Proof. repeat split; reflexivity. Qed.
+Proof.
+  repeat split; unfold gen_pneg, gen_precip, gen_pnum, gen_punary, gen_penv, gen_pimp; rewrite ?gen_constructor_is_model; reflexivity.
+Qed.
 End T.
